@@ -17,8 +17,8 @@ PROP = "C01"
 def _expected(g, scale):
     """g: list of records of one (mode, c, R, H) group"""
     H = len(g[0]["hyp"])
-    dist = torch.tensor([r["out"][r["hyplen"]]["cost"] * scale for r in g])
-    pre = torch.tensor([[o["cost"] * scale for o in r["out"]] for r in g])  # (N, H+1)
+    dist = torch.tensor([r["out"][r["hyplen"]]["cost"] * scale for r in g], dtype=torch.double)
+    pre = torch.tensor([[o["cost"] * scale for o in r["out"]] for r in g], dtype=torch.double)  # (N, H+1)
     reflen = torch.tensor([r["reflen"] for r in g])
     hyplen = torch.tensor([r["hyplen"] for r in g])
     return dist, pre, reflen, hyplen, H
@@ -135,7 +135,12 @@ def run(ctx):
                 "as seeded small batches; non-trivial = pair with 0 < distance and both effective strings "
                 "non-empty, distinct by (mode, costs, ref row, hyp row)")
     ctx.assumptions += [
-        "costs are dyadic multiples of the spec's integer costs (float32 arithmetic exact)",
+        "costs are dyadic multiples of the spec's integer costs (float32 arithmetic exact); equal costs also times 0.1 / "
+        "0.3 / 0.7 (the common cost is factored out by the library: one rounding, compared at 1e-6 relative); one cost of "
+        "2**23 next to costs 1 and 2 (results compared at 1e-6 relative)",
+        "long strings (6..12 symbols; content padded with eos / garbage beyond 256 symbols) are chosen by the harness "
+        "(seeded); their oracle is the specification's row machine, which TLC has checked against the minimum over all "
+        "alignments on the exhaustive universe of short rows only",
         "tensors have R,H >= 1 (zero-sized dimensions make the library's length inference raise inside torch)",
         "norm=True with an empty reference is not judged for C01 (the statement fixes no value there)",
     ]
@@ -159,6 +164,23 @@ def run(ctx):
         for idxs in _ed.sub_batches(ctx.rng, len(g), nb):
             sub = [g[i] for i in idxs]
             check_group(ctx, key, sub, _ed.TOKEN_MAPS[ti], 1.0, LIGHT, "small")
+        ctx.traces += len(g)
+    # LONG strings (6..12 symbols, and short content padded beyond 256 symbols): harness-chosen cases, the row machine
+    # of the specification (equal to the minimum over all alignments on the exhaustive universe) is the oracle; also a
+    # cost of 2**23 (float32 drops odd integers from 2**24 on) and equal costs times non-dyadic factors
+    long_recs = _ed.run_long(ctx) + _ed.run_long(ctx, costs=("<<1, %d, 1>>" % _ed.HUGE, "<<%d, 1, 2>>" % _ed.HUGE),
+                                                 name="EditDistanceHuge", padded=False)
+    lgroups = _ed.group_records(long_recs)
+    for n, key in enumerate(sorted(lgroups)):
+        g = lgroups[key]
+        c = key[1]
+        for r in g:
+            d = r["out"][r["hyplen"]]["cost"]
+            ctx.case(key=("long", key[0], c, tuple(r["ref"]), tuple(r["hyp"])), n=0,
+                     nontrivial=d > 0 and r["reflen"] > 0 and r["hyplen"] > 0)
+        scales = [1.0] + ([0.5] if max(c) < _ed.HUGE else []) + (_ed.NONDYADIC if c[0] == c[1] == c[2] else [])
+        for si, scale in enumerate(scales):
+            check_group(ctx, key, g, _ed.TOKEN_MAPS[(n + si) % len(_ed.TOKEN_MAPS)], scale, LIGHT, "long")
         ctx.traces += len(g)
     if not ctx.samples:
         r = recs[len(recs) // 2]
